@@ -97,6 +97,7 @@ class _Proc:
             raise RuntimeError("double: worker has no shared dict argument")
         self.shared = shared
         r, w = os.pipe()
+        marks = [len(ch.trace) for ch in self.owner.extra_choosers]
         pid = os.fork()
         if pid == 0:
             os.close(r)
@@ -108,6 +109,8 @@ class _Proc:
                 payload = ("ok", dict(rec))
             except BaseException as e:  # noqa: BLE001 - the real child would die with a traceback
                 payload = ("crash", "%s: %s" % (type(e).__name__, str(e)[:200]))
+            # observation points answered inside the child are part of the explored execution: ship them back
+            payload = payload + ([ch.trace[m:] for ch, m in zip(self.owner.extra_choosers, marks)],)
             try:
                 with os.fdopen(w, "wb") as fh:
                     pickle.dump(payload, fh)
@@ -118,7 +121,9 @@ class _Proc:
             data = fh.read()
         os.waitpid(pid, 0)
         self.pid = pid
-        kind, val = pickle.loads(data)
+        kind, val, child_traces = pickle.loads(data)
+        for ch, tr in zip(self.owner.extra_choosers, child_traces):
+            ch.trace.extend(tr)
         if kind == "ok":
             self.writes = val
         else:
@@ -179,8 +184,9 @@ class _Proc:
 class SchedMP:
     """Stands in for the module object `mp` in inference.inference."""
 
-    def __init__(self, chooser):
+    def __init__(self, chooser, extra_choosers=()):
         self.chooser = chooser
+        self.extra_choosers = list(extra_choosers)
         self.procs = []
         self.dicts = []
         self.crashes = []
@@ -204,8 +210,8 @@ class SchedMP:
 
 
 class patched_mp:
-    def __init__(self, chooser):
-        self.double = SchedMP(chooser)
+    def __init__(self, chooser, extra_choosers=()):
+        self.double = SchedMP(chooser, extra_choosers)
 
     def __enter__(self):
         import inference.inference as II
